@@ -8,6 +8,25 @@ HERE = os.path.dirname(os.path.dirname(os.path.abspath(__file__)))
 TECH = "deterministic simulation with fault injection: "
 
 CHECKS = {
+    "C14": dict(
+        level="fault_enumeration",
+        text="Original run of a generated chart under a timed history with a snapshot (serialize) at every step returning MACROSTEPPED or IDLE; for up to three sampled "
+             "snapshot points per run the interpreter is killed there: a fresh interpreter deserializes the snapshot at the same simulated instant and executes the remaining "
+             "history; its recorded behaviour (events processed, exits, transitions, content, logs, entries, configurations) must equal the original suffix; a snapshot of a "
+             "different document must be rejected; both engines, three datamodels.",
+        ref="DESIGN.md 6/C14",
+        note="snapshot points are sampled per run; downtime is zero; charts without invoke; the repeated stable-configuration notice of a resumed interpreter is not counted as a difference.",
+        technique=TECH + "crash-point (kill + restore) injection at macrostep boundaries of simulated runs, resumed-trace == original-suffix oracle"),
+    "C15": dict(
+        level="fault_enumeration",
+        text="NARROW CLAIM: only JSON that crosses simulated storage. Snapshot texts of interpreters whose external queue holds events with generated payloads are round-tripped "
+             "(deserialize + serialize must be the identity, structurally) and damaged like stored bytes: truncation at every offset (short texts) or 200 seeded offsets, torn "
+             "writes, single-bit flips, single-byte and number substitutions; every variant goes to deserialize() of a fresh interpreter in the ASan+UBSan build: it must "
+             "return or fail with an exception, never crash or report.",
+        ref="DESIGN.md 6/C15 and section 7",
+        note="the property's general statement (all Data trees, all byte strings) is a pure function and is NOT decided by this check; only the snapshot path "
+             "(Data::toJSON/fromJSON, Event <-> Data, engine state encoding) under storage faults is.",
+        technique=TECH + "stored-byte fault injection (truncated / torn / flipped snapshot text) into deserialize() under sanitizers, plus fault-free round trip"),
     "C03": dict(
         level="exploration",
         text="One plan (generated chart with planted failing elements in 20% of the runs, or one self-contained W3C IRP document for null/lua/promela) is executed with the "
@@ -104,8 +123,6 @@ NOT_APPLICABLE = [
 PENDING = {
     "C04": "not claimed yet: generated-C host under construction (DESIGN.md 6/C04)",
     "C06": "not claimed yet: spin-simulation differential under construction (DESIGN.md 6/C06)",
-    "C14": "not claimed yet: snapshot/restore enumeration under construction (DESIGN.md 6/C14)",
-    "C15": "not claimed yet: storage-crossing JSON fault check under construction (DESIGN.md 6/C15)",
     "C20": "not claimed yet: perturbation differential under construction (DESIGN.md 6/C20)",
 }
 
